@@ -24,6 +24,29 @@ from common import MachineryFailure
 ALL_OPS = ["add", "subtract", "remainder", "fmod", "maximum", "minimum", "fmax", "fmin", "hypot", "copysign", "less", "less_equal", "greater", "greater_equal", "equal", "not_equal", "multiply", "divide", "floor_divide", "divmod_q", "divmod_r", "negative", "positive", "absolute", "fabs", "sqrt", "cbrt", "square", "reciprocal", "sin", "cos", "tan", "sign", "power", "dot"]
 
 
+# TLC evaluates the recursive operators of Arith.tla on 28-atom unit vectors: give its worker threads a deeper stack
+JVM = {"JAVA_TOOL_OPTIONS": "-Xss16m"}
+MAG_OPS = ["add", "subtract", "remainder", "fmod", "maximum", "minimum", "fmax", "fmin", "hypot", "copysign", "less", "less_equal", "greater", "greater_equal", "equal", "not_equal", "floor_divide", "divmod_r"]
+
+
+def _same_class(tab, i, j):
+    from fractions import Fraction
+
+    def dim_scale(k):
+        u = tab["cat"][k - 1]
+        d = [sum(e for e, g in zip(u, tab["grp"]) if g == gg) for gg in (1, 2, 3, 4)]
+        sc = Fraction(1)
+        for e, v in zip(u, tab["pv"]):
+            if e:
+                for p, x in zip((2, 3, 5, 127), v):
+                    sc *= Fraction(p) ** (x * e // 6)
+        return d, sc
+
+    (di, si), (dj, sj) = dim_scale(i), dim_scale(j)
+    r = si / sj
+    return di == dj and r.numerator <= 2048 and r.denominator <= 2048
+
+
 def _cfg(ck, name, maxlen, exportlen, leaves, yshapes, valsets, reexall, ops=None, pairs=(), xshapes=("v",)):
     ops = ops or ALL_OPS
     txt = "CONSTANTS\n"
@@ -100,7 +123,7 @@ def _validate(ck, cases, obs, label, st):
         keys = order[off : off + CH]
         part = [distinct[k][0] for k in keys]
         path = ck.write_json(f"events_{label}_{off}.json", part)
-        res = ck.tlc("Trace_C04", env={"EVENTS": path}, coverage=False, label=f"trace validation {label} [{off}:{off + len(part)}]", timeout=3000)
+        res = ck.tlc("Trace_C04", env={"EVENTS": path, **JVM}, coverage=False, label=f"trace validation {label} [{off}:{off + len(part)}]", timeout=3000)
         nb = (len(part) + 99) // 100
         if res.distinct != 1 + nb + len(part):
             raise MachineryFailure(f"trace validation consumed {res.distinct} states, expected {1 + nb + len(part)}")
@@ -167,9 +190,9 @@ def _replay_validate(ck, cases, label, st):
 def run(ck):
     ck.level = "model_checking"
     ck.assumptions += [
-        "alphabet: 15 atomic units (6 power-of-two units in a custom registry: exact float arithmetic; km cm ft min percent degree arcmin radian + a custom 15-degree unit), 24 leaf units incl. compounds; two leaves (length-2 array; length-2 array or scalar); values from 3 small sets",
+        "alphabet: 28 atomic units (power-of-two units in a custom registry incl. 2^-60, 2^-55, 2^70, 2^75: exact float arithmetic; km cm ft min percent degree arcmin radian + a custom 15-degree unit; magnitude classes fm pm fs ps Zm Ym and eV keV MeV carried relative to eV), 37 leaf units incl. compounds; two leaves (length-2 array; length-2 array or scalar); values from 3 small sets",
         "TLC 32-bit integers: scales are exponent vectors over the primes 2,3,5,127; value arithmetic is checked, steps whose exact evaluation would leave the range are not generated (trace side: undecided, counted)",
-        "floats are matched to the rationals the specification expects: exactly on power-of-two units, rtol 1e-12 (+1e-12 of the operand magnitude for sums, differences, dot, reductions, trig) otherwise; discontinuous operations (floor_divide, mod, fmod, divmod, comparisons, sign) are judged only on exact operands or away from the jump",
+        "floats are matched to the rationals the specification expects: exactly on power-of-two units, rtol 1e-12 (+1e-12 of the operand magnitude for sums, differences, dot, reductions, trig and the remainders - modulus-aware) otherwise; discontinuous operations (floor_divide, mod, fmod, divmod, comparisons, sign) are judged only on exact operands or away from the jump",
         "known findings are matched on (clause, operation, method, operand-unit relation, agreement with the transcription)",
     ]
     st = {"events": 0, "distinct_events": 0, "outside": 0, "undecided": {}, "raised": 0, "model_fail_classes": set(), "steps": 0, "by_op": {}, "table": None}
@@ -184,7 +207,7 @@ def run(ck):
                 ck.violation({"source": "suite", "pred": r["pred"], "fn": e["fn"], "method": e["method"], "exc": e["exc"]}, suite.brief(e), case=case)
             return
         _cfg(ck, "MC_C04_tab", 0, 99, [1], ["v"], [1], False)
-        res = ck.tlc("MC_C04", "MC_C04_tab", workers=1, label="atom table", coverage=False, timeout=300)
+        res = ck.tlc("MC_C04", env=JVM, cfg="MC_C04_tab", workers=1, label="atom table", coverage=False, timeout=300)
         st["table"] = res.by_tag("TABLE")[0]
         _replay_validate(ck, [case], "replay", st)
         return
@@ -194,7 +217,7 @@ def run(ck):
     # length 1: every operation x form on every pair of leaf units
     leaves1 = ck.q([1, 2, 4, 6, 12, 18, 20], [1, 2, 3, 4, 5, 6, 7, 8, 12, 13, 14, 15, 16, 17, 18, 19, 20, 21])
     _cfg(ck, "MC_C04_1", 1, 1, leaves1, ck.q(["v"], ["v", "s"]), ck.q([1], [2]), False)
-    res = ck.tlc("MC_C04", "MC_C04_1", label="programs of length 1 (exhaustive)", coverage=False, timeout=3000)
+    res = ck.tlc("MC_C04", env=JVM, cfg="MC_C04_1", label="programs of length 1 (exhaustive)", coverage=False, timeout=3000)
     st["table"] = res.by_tag("TABLE")[0]
     cases = _cases(res)
     if len(cases) < 500:
@@ -203,18 +226,32 @@ def run(ck):
     ck.sample({"program": mid["steps"], "leaf_units_A": [_ustr(st["table"]["names"], r["u"]) for r in mid["A"][:2]], "leaf_units_B": [_ustr(st["table"]["names"], r["u"]) for r in mid["B"][:2]]})
     batches.append(("len1", cases))
     # length 1 on the exact units with the equality / exact-multiple value set and every re-expression
-    _cfg(ck, "MC_C04_1e", 1, 1, ck.q([1, 2], [1, 2, 3, 4, 6]), ["v"], [3, 4], True)
-    res = ck.tlc("MC_C04", "MC_C04_1e", label="length 1, power-of-two units, equal / exact-multiple / Pythagorean values, all re-expressions", coverage=False, timeout=3000)
+    _cfg(ck, "MC_C04_1e", 1, 1, ck.q([1, 2], [1, 2, 3, 4, 6]), ["v"], [3, 4], ck.q(False, True))
+    res = ck.tlc("MC_C04", env=JVM, cfg="MC_C04_1e", label="length 1, power-of-two units, equal / exact-multiple / Pythagorean values", coverage=False, timeout=3000)
     batches.append(("len1e", _cases(res)))
     # length 1, both leaves scalar quantities (0-d results)
     _cfg(ck, "MC_C04_1s", 1, 1, ck.q([1, 2, 12], [1, 2, 4, 6, 8, 12, 13, 16, 18, 20]), ["s"], [1], False, xshapes=["s"])
-    res = ck.tlc("MC_C04", "MC_C04_1s", label="length 1, scalar leaves", coverage=False, timeout=3000)
+    res = ck.tlc("MC_C04", env=JVM, cfg="MC_C04_1s", label="length 1, scalar leaves", coverage=False, timeout=3000)
     batches.append(("len1s", _cases(res)))
+    # magnitude classes: leaves (and their re-expressions) whose SI scales are both tiny (2^-60, 2^-55; fm/pm; fs/ps;
+    # eV/keV/MeV) or both huge (2^70, 2^75; Zm/Ym): every operation that must bring operand 1 to operand 0's unit
+    mag = list(range(25, 38))
+    # leaf pairs of one scale class (commensurable, scale ratio a small rational - the relation MC_C04!Reex)
+    magpairs = [(i, j) for i in mag for j in mag if _same_class(st["table"], i, j)]
+    if ck.tier == "thorough":
+        # plus pairs across classes for the multiplicative operations (tiny x huge, tiny x relative, real x power-of-two)
+        magpairs += [(25, 27), (27, 25), (29, 33), (33, 30), (35, 25), (31, 27), (26, 36), (28, 32)]
+    _cfg(ck, "MC_C04_1m", 1, 1, mag, ["v"], ck.q([1, 4], [1, 2, 4]), ck.q(False, True), MAG_OPS if ck.tier == "quick" else MAG_OPS + ["multiply", "divide", "sqrt", "square", "dot", "negative", "absolute"], magpairs)
+    res = ck.tlc("MC_C04", env=JVM, cfg="MC_C04_1m", label="length 1, magnitude classes (tiny / huge scales)", coverage=False, timeout=3000)
+    magcases = _cases(res)
+    if len(magcases) < 200:
+        raise MachineryFailure("too few magnitude-class cases exported")
+    batches.append(("len1m", magcases))
     # length 2 (exhaustive chains) on a smaller alphabet: compound and cancelled units feed the second step
     leaves2 = ck.q([1, 2], [1, 2, 6])
     ops2 = ck.q(["add", "multiply", "divide", "floor_divide", "remainder", "sqrt", "power", "dot", "less"], ALL_OPS)
     _cfg(ck, "MC_C04_2", 2, 2, leaves2, ["v"], [1], False, ops2, ck.q([(1, 2)], [(1, 2), (2, 1), (2, 6), (1, 1)]))
-    res = ck.tlc("MC_C04", "MC_C04_2", label="programs of length 2 (exhaustive)", coverage=False, timeout=6000)
+    res = ck.tlc("MC_C04", env=JVM, cfg="MC_C04_2", label="programs of length 2 (exhaustive)", coverage=False, timeout=6000)
     batches.append(("len2", _cases(res)))
     ck.cov["exhaustive"] = True
     ck.cov["bound"] = {"len1_leaf_units": len(leaves1), "len2_leaf_units": len(leaves2), "len2_ops": len(ops2)}
@@ -222,7 +259,7 @@ def run(ck):
     n_sim = ck.q(10, 60)
     depth = ck.q(4, 6)
     _cfg(ck, "MC_C04_s", depth, depth, ck.q([1, 2, 3, 4, 5, 6, 8, 12], list(range(1, 25))), ["v", "s"], [1, 2, 3], False)
-    res = ck.tlc("MC_C04", "MC_C04_s", workers=1, simulate=n_sim, depth=depth + 1, label=f"simulation, programs of length {depth}", timeout=3000)
+    res = ck.tlc("MC_C04", env=JVM, cfg="MC_C04_s", workers=1, simulate=n_sim, depth=depth + 1, label=f"simulation, programs of length {depth}", timeout=3000)
     sims = _cases(res)
     # the simulator evaluates the exporting invariant on every successor of the states it visits: programs come in
     # families sharing all but the last step; keep a seeded sample of each family
@@ -236,8 +273,8 @@ def run(ck):
     batches.append(("sim", sims))
     allcases = [c for _, cs in batches for c in cs]
     _replay_validate(ck, allcases, "all", st)
-    n1 = len(batches[0][1]) + len(batches[1][1]) + len(batches[2][1])
-    n2 = len(batches[3][1])
+    n1 = len(batches[0][1]) + len(batches[1][1]) + len(batches[2][1]) + len(batches[3][1])
+    n2 = len(batches[4][1])
 
     ck.cov["evaluations"] = st["events"]
     ck.cov["distinct_nontrivial"] = st["distinct_events"]
